@@ -227,6 +227,8 @@ func respond(_ context.Context, _ *middleware.Chain, req *dns.Msg) *dns.Msg {
 			&dns.EDNS0_PADDING{Padding: make([]byte, 7)},
 			&dns.EDNS0_SUBNET{Code: dns.EDNS0SUBNET, Family: 1, SourceNetmask: 24, SourceScope: 0, Address: net.IPv4(198, 51, 100, 0)})
 		resp.Extra = []dns.RR{o}
+	case "panic":
+		panic("verif serve: scripted panic behind the cache")
 	case "cnamesplit":
 		// the alias alone, validated; the target ("tgt-...", content class of its own: plain, AD=0) is asked for in
 		// a second exchange by the cache's alias completion, so the two are cached apart
